@@ -18,7 +18,7 @@ pub const DEF: PropDef = PropDef {
     run,
     replay,
     level: "exploration",
-    rule: "cases = (handshake string, suite, backend, per-message failing attempts from the C07 fault alphabet each followed by a retry with a DIFFERENT payload, then a transport script over {write, failing write, auto rekey of either direction on either side, manual rekey with fresh keys, stateless writes with distinct nonces}); both endpoints use a recording cipher/DH and a seeded RNG that yields fresh bytes on every draw. Oracle: in the merged log of both endpoints no two Enc records share (key, nonce) with different (ad, plaintext) (rekey encryptions included); for every written message containing `e`, the public key on the wire is the DH public key of bytes drawn from the RNG during that very call. Non-trivial = the history contains a failed call that was retried, or a rekey; distinct by (name, suite, faults, transport script)",
+    rule: "cases = (handshake string, suite, backend, per-message failing attempts from the C07 fault alphabet each followed by a retry with a DIFFERENT payload, then a transport script over {write, failing write, auto rekey of either direction on either side, manual rekey with fresh keys, stateless writes with distinct nonces, set_receiving_nonce on either side (also the send-only side of one-way patterns), delivery of the last written message}); both endpoints use a recording cipher/DH and a seeded RNG that yields fresh bytes on every draw. Oracle: in the merged log of both endpoints no two Enc records share (key, nonce) with different (ad, plaintext) (rekey encryptions included); for every written message containing `e`, the public key on the wire is the DH public key of bytes drawn from the RNG during that very call. Non-trivial = the history contains a failed call that was retried, or a rekey; distinct by (name, suite, faults, transport script)",
     technique: "history invariant over an instrumented CryptoResolver (recording cipher + recording RNG), fault schedules enumerated from reference field maps + proptest",
     assumptions: &[
         "caller-induced reuse is out of domain: fixed ephemerals, duplicate stateless nonces, the verif sending-nonce hook and manual rekeys to an already used key are not generated",
@@ -42,6 +42,12 @@ pub enum TOp {
     ReadGarbage(bool, usize),
     /// stateless only: a write attempted under the reserved nonce 2^64-1 (must not encrypt)
     WriteAtMax(bool, usize),
+    /// stateful only: set_receiving_nonce on a side (also on the send-only side of a one-way
+    /// pattern): moves the RECEIVING counter only, so it can never lead to a second encryption
+    SetRecvNonce(bool, u8),
+    /// deliver the last message written in a direction (true = written by the initiator) to the
+    /// peer; decryption only
+    Deliver(bool),
 }
 
 #[derive(Clone, Debug, Serialize, Deserialize)]
@@ -271,6 +277,7 @@ pub fn oracle(c: &Case, acc: &mut Acc) -> CaseResult {
             let mut ti = hi.into_stateless_transport_mode().map_err(|x| Fail::setup(e(&x)))?;
             let mut tr = hr.into_stateless_transport_mode().map_err(|x| Fail::setup(e(&x)))?;
             let mut n = [0u64; 2];
+            let mut last: [Option<(u64, Vec<u8>)>; 2] = [None, None];
             for (k, op) in c.tops.iter().enumerate() {
                 log.mark(format!("transport(stateless) {op:?}"));
                 match op {
@@ -283,7 +290,9 @@ pub fn oracle(c: &Case, acc: &mut Acc) -> CaseResult {
                         // distinct nonces per direction, not necessarily consecutive
                         let nonce = n[d] * 3 + (spec.key_seed % 3);
                         n[d] += 1;
-                        let _ = t.write_message(nonce, &payload, &mut buf);
+                        if let Ok(l) = t.write_message(nonce, &payload, &mut buf) {
+                            last[d] = Some((nonce, buf[..l].to_vec()));
+                        }
                     },
                     TOp::FailWrite(i_w, kind) => {
                         let t = if *i_w { &ti } else { &tr };
@@ -324,11 +333,21 @@ pub fn oracle(c: &Case, acc: &mut Acc) -> CaseResult {
                         let mut buf = vec![0u8; plen + 16];
                         let _ = t.write_message(u64::MAX, &payload, &mut buf);
                     },
+                    TOp::SetRecvNonce(..) => {},
+                    TOp::Deliver(from_i) => {
+                        let d = if *from_i || oneway { 0 } else { 1 };
+                        if let Some((nonce, m)) = &last[d] {
+                            let t = if d == 0 { &tr } else { &ti };
+                            let mut buf = vec![0u8; m.len()];
+                            let _ = t.read_message(*nonce, m, &mut buf);
+                        }
+                    },
                 }
             }
         } else {
             let mut ti = hi.into_transport_mode().map_err(|x| Fail::setup(e(&x)))?;
             let mut tr = hr.into_transport_mode().map_err(|x| Fail::setup(e(&x)))?;
+            let mut last: [Option<Vec<u8>>; 2] = [None, None];
             for (k, op) in c.tops.iter().enumerate() {
                 log.mark(format!("transport {op:?}"));
                 match op {
@@ -337,7 +356,21 @@ pub fn oracle(c: &Case, acc: &mut Acc) -> CaseResult {
                         let payload = expand(spec.key_seed, 6000 + k as u64, *plen);
                         let mut buf = vec![0u8; plen + 16];
                         let t = if i_w { &mut ti } else { &mut tr };
-                        let _ = t.write_message(&payload, &mut buf);
+                        if let Ok(l) = t.write_message(&payload, &mut buf) {
+                            last[if i_w { 0 } else { 1 }] = Some(buf[..l].to_vec());
+                        }
+                    },
+                    TOp::SetRecvNonce(side_i, v) => {
+                        let t = if *side_i { &mut ti } else { &mut tr };
+                        t.set_receiving_nonce([0u64, 0, 1, 2, 5, 1000][*v as usize % 6]);
+                    },
+                    TOp::Deliver(from_i) => {
+                        let d = if *from_i || oneway { 0 } else { 1 };
+                        if let Some(m) = &last[d] {
+                            let t = if d == 0 { &mut tr } else { &mut ti };
+                            let mut buf = vec![0u8; m.len()];
+                            let _ = t.read_message(m, &mut buf);
+                        }
                     },
                     TOp::FailWrite(i_w, kind) => {
                         let t = if *i_w { &mut ti } else { &mut tr };
@@ -411,7 +444,14 @@ fn write_faults(spec: &SessionSpec, plen: usize) -> Vec<Fault> {
 fn default_tops() -> Vec<TOp> {
     vec![
         TOp::Write(true, 5),
+        TOp::SetRecvNonce(true, 0),
+        TOp::Deliver(true),
+        TOp::Write(true, 6),
         TOp::Write(false, 7),
+        TOp::SetRecvNonce(false, 1),
+        TOp::Deliver(false),
+        TOp::Write(false, 8),
+        TOp::SetRecvNonce(true, 2),
         TOp::FailWrite(true, 0),
         TOp::FailWrite(true, 1),
         TOp::Write(true, 5),
@@ -443,6 +483,8 @@ fn top_strategy() -> impl Strategy<Value = TOp> {
         1 => (any::<bool>(), 0u8..3).prop_map(|(a, b)| TOp::Manual(a, b)),
         1 => (any::<bool>(), 0usize..60).prop_map(|(a, b)| TOp::ReadGarbage(a, b)),
         1 => (any::<bool>(), prop_oneof![Just(32usize), 0usize..40]).prop_map(|(a, b)| TOp::WriteAtMax(a, b)),
+        1 => (any::<bool>(), 0u8..6).prop_map(|(a, b)| TOp::SetRecvNonce(a, b)),
+        1 => any::<bool>().prop_map(TOp::Deliver),
     ]
 }
 
@@ -462,7 +504,7 @@ pub fn run(ctx: &Ctx) {
             // no faults: plain history with rekeys
             cases.push(Case { spec: spec.clone(), faults: vec![], plen: 6, tops: default_tops(), stateless: ni % 2 == 0 });
             for (fi, f) in write_faults(&spec, 6).into_iter().enumerate() {
-                let tops = if fi % 8 == 0 { default_tops() } else { vec![TOp::Write(true, 4), TOp::Write(false, 4)] };
+                let tops = if fi % 8 == 0 { default_tops() } else { vec![TOp::Write(true, 4), TOp::SetRecvNonce(true, 0), TOp::Write(true, 2), TOp::Write(false, 4), TOp::SetRecvNonce(false, 1), TOp::Deliver(true), TOp::Write(false, 1)] };
                 cases.push(Case { spec: spec.clone(), faults: vec![f], plen: 6, tops, stateless: fi % 3 == 0 });
             }
         }
